@@ -20,6 +20,32 @@ EIGHTHS = [1, 2, 3, 4, 5, 6, 7, 8, 9, 12, -1, -2, -3, -4]          # multiples o
 EXPONENTS = [1, 0.5, 0.25, -0.5, -0.25, 1.5, 2.25, 0, 2, -1.75]
 
 
+class NoisyGate(cirq.Gate):
+    """A user gate defined only by its decomposition: some unitaries followed by an error channel (and
+    optionally one more unitary).  It has no _unitary_, _kraus_ or _apply_channel_ of its own."""
+
+    _verif_composite_ = True
+
+    def __init__(self, unitaries, channel, tail=None):
+        self.unitaries, self.channel, self.tail = tuple(unitaries), channel, tail
+
+    def _num_qubits_(self) -> int:
+        return 1
+
+    def _decompose_(self, qubits):
+        for u in self.unitaries:
+            yield u.on(*qubits)
+        yield self.channel.on(*qubits)
+        if self.tail is not None:
+            yield self.tail.on(*qubits)
+
+    def __repr__(self) -> str:
+        return f"NoisyGate({self.unitaries!r}, {self.channel!r}, {self.tail!r})"
+
+    def _value_equality_values_(self):
+        return (self.unitaries, self.channel, self.tail)
+
+
 class Gen:
     def __init__(self, tape, *, max_qudits=4, allow_qudits=True, clifford_only=False,
                  allow_measure=True, allow_control=True, allow_channels=False, allow_reset=True,
@@ -345,7 +371,7 @@ class Gen:
             return None
         q = self._pick(qs2, "q")
         pr = self._pick([0.125, 0.25, 0.5, 0.0625, 0.75, 1.0, 0.0], "ch-p")
-        kind = self.t.weighted([3, 2, 2, 2, 2, 2, 2, 2, 2, 1], "ch-kind")
+        kind = self.t.weighted([3, 2, 2, 2, 2, 2, 2, 2, 2, 1, 2], "ch-kind")
         bits = 2.0
         op = None
         if kind == 0:
@@ -393,6 +419,15 @@ class Gen:
             bits = 1
             if key:
                 self.features.add("keyed-channel")
+        elif kind == 10:
+            us = [self._pick([cirq.H, cirq.Z, cirq.S, cirq.T, cirq.X, cirq.Y ** 0.5], "ng-u")
+                  for _ in range(1 + self.t.draw(2, "ng-n"))]
+            ch = self._pick([cirq.depolarize(min(pr, 0.75)), cirq.amplitude_damp(pr), cirq.phase_damp(pr),
+                             cirq.bit_flip(pr)], "ng-ch")
+            tail = self._pick([None, cirq.S, cirq.H], "ng-tail")
+            op = NoisyGate(us, ch, tail).on(q)
+            bits = 2.0 if "depolarize" in repr(ch) else 1.0
+            self.features.add("composite-noisy-gate")
         else:
             if len(qs2) >= 2:
                 a, b = self._pick_distinct(qs2, 2, "q2")
